@@ -132,7 +132,10 @@ func (ctx *baseTaskContext) addRequests(req *protoCommonV1.TaskRequest, physical
 // Complete completes the task with error(if execute failure).
 func (ctx *baseTaskContext) Complete(err error) {
 	ctx.mutex.Lock()
-	ctx.err = err
+	if err != nil {
+		// NOTE: keep the error of task response(handle response in other goroutine) when pipeline completes without error.
+		ctx.err = err
+	}
 	ctx.mutex.Unlock()
 
 	ctx.tryClose()
